@@ -13,7 +13,8 @@ for c in $(git rev-list --reverse main..agent-$n); do
   echo "picked: $(git log -1 --oneline)"
 done
 cd /verif || exit 2
-git merge --no-edit agent-$n >/dev/null 2>&1
+git diff --quiet || { git add -A coq/Gen evidence; git commit -qm "regenerated Gen files / evidence"; }
+git merge --no-edit agent-$n >/var/tmp/merge-out.$$ 2>&1; grep -q "would be overwritten\|Aborting" /var/tmp/merge-out.$$ && { cat /var/tmp/merge-out.$$; echo "MERGE FAILED"; exit 6; }
 for f in $(git diff --name-only --diff-filter=U); do
   case $f in
     coq/Gen/*.v|evidence/*.json|harness/go.sum) git checkout --ours -- $f 2>/dev/null || git rm -q --cached $f; git add $f 2>/dev/null ;;
@@ -23,6 +24,7 @@ done
 if git diff --name-only --diff-filter=U | grep -q .; then git status --short | grep '^UU\|^AA'; exit 4; fi
 git commit -q --no-edit 2>/dev/null
 ./check --build || { echo "HARNESS BUILD FAILED"; exit 5; }
+git diff --quiet -- coq/Gen || { git add coq/Gen; git commit -qm "Gen: regenerated after merge of agent-$n"; }
 ( cd coq && coq_makefile -f _CoqProject -o Makefile >/dev/null && timeout 3000 make -j16 2>&1 | grep -v '^Closed under\|^COQC\|^COQDEP\|^make\|^CLEAN' | tail -20 )
 for p in "$@"; do ./check $p --tier quick | tail -4; done
 git status --short | head
